@@ -3,6 +3,7 @@ package props
 import (
 	"fmt"
 	"reflect"
+	"strings"
 
 	"pgregory.net/rapid"
 
@@ -123,6 +124,9 @@ func checkC18(c *Case, st *Stats) string {
 			return fmt.Sprintf("spellings fail at different steps:\n   %q -> %v (steps %v)\n   %q -> %v (steps %v)", variants[0].text, base.err, ia, v.text, lib.err, ib)
 		}
 	}
+	if msg := rawControlPairs(c, st); msg != "" {
+		return msg
+	}
 	if base.err == nil {
 		st.Class("outcome:values")
 	} else {
@@ -147,6 +151,51 @@ func checkC18(c *Case, st *Stats) string {
 			}
 			return map[string]interface{}{"spellings": ts, "doc": docText, "outcome": outcomeOf(base)}
 		})
+	}
+	return ""
+}
+
+// rawControlPairs: a control character written raw inside a quoted name is the same (invalid)
+// spelling in both quote styles; the two must be rejected alike or behave alike.
+func rawControlPairs(c *Case, st *Stats) string {
+	for i := range c.AST.Steps {
+		s := &c.AST.Steps[i]
+		if s.Kind != gen.KName || s.Not == gen.NDot {
+			continue
+		}
+		ctrl := false
+		for _, r := range s.Key {
+			if r < 0x20 && r != 0 {
+				ctrl = true
+			}
+		}
+		if !ctrl || strings.ContainsAny(s.Key, "'\"\\") {
+			continue
+		}
+		var outcomes []string
+		for _, q := range []string{"'", "\""} {
+			steps := append([]gen.Step(nil), c.AST.Steps[:i]...)
+			prefix := gen.RenderSteps(steps).Text
+			rest := gen.Render(&gen.Path{Root: gen.RootOmitted, Steps: c.AST.Steps[i+1:]}, gen.Canon).Text
+			if len(c.AST.Steps[i+1:]) > 0 && c.AST.Steps[i+1].Kind == gen.KName && c.AST.Steps[i+1].Not == gen.NDot && !c.AST.Steps[i+1].Rec {
+				rest = "." + rest
+			}
+			text := prefix + "[" + q + s.Key + q + "]" + rest
+			lib := evalLibrary(&Case{Path: text, Funcs: true}, c.Document(), false)
+			st.Eval(1)
+			switch {
+			case lib.parseErr != nil:
+				outcomes = append(outcomes, "rejected: "+reflect.TypeOf(lib.parseErr).Name())
+			case lib.err != nil:
+				outcomes = append(outcomes, "error: "+reflect.TypeOf(lib.err).Name())
+			default:
+				outcomes = append(outcomes, "values: "+JSONString(lib.got))
+			}
+		}
+		st.Class("raw-control-character-pair")
+		if outcomes[0] != outcomes[1] {
+			return fmt.Sprintf("a raw control character inside a quoted name is treated differently by the two quote styles: ['%q'] -> %s, [\"%q\"] -> %s", s.Key, outcomes[0], s.Key, outcomes[1])
+		}
 	}
 	return ""
 }
